@@ -37,7 +37,7 @@ ASSUMPTIONS = ["frozen positions are 0-based (the convention full_shuffle implem
                "non-termination (N<5, single charge type) is counted as BUDGET",
                "bookkeeping is observed through the API: length, counts, per-residue charge via get_linear_NCPR(1), SCD, carried delta-max via get_deltaMax()",
                "swapRes indices are valid 0-based positions"]
-PROBES = ["permutants_object_reused", "frozen_as_shared_set", "earlier_api_result_still_held", "default_frozen_argument", "frozen_as_tuple", "frozen_as_frozenset", "frozen_as_range", "frozen_nonempty", "frozen_all", "frozen_out_of_range", "frozen_as_list", "cache_warm_before_move", "child_inherits_dmax",
+PROBES = ["light_op_checked_at_next_sweep", "permutants_object_reused", "frozen_as_shared_set", "earlier_api_result_still_held", "default_frozen_argument", "frozen_as_tuple", "frozen_as_frozenset", "frozen_as_range", "frozen_nonempty", "frozen_all", "frozen_out_of_range", "frozen_as_list", "cache_warm_before_move", "child_inherits_dmax",
           "same_seed_twice", "clock_went_back", "returns_self", "block_swap_attempt_99", "block_swap_N_lt_4", "cluster_draw_cap",
           "cluster_named_refusal", "chain_depth_ge_5", "panel_on_child", "permutant_api", "shuffle_api", "swapres_same_index",
           "three_types_sample", "moved_something"]
@@ -71,6 +71,7 @@ def gen_plan(streams, tier):
         move_w["full_shuffle"] = 1
     ops = []
     nops = rnd.randrange(4, 17)
+    p_light = rnd.choice((0.0, 0.0, 0.5, 1.0))
     if related:
         m0 = rnd.choice(MOVES)
         ops.append({"k": "warm", "o": 1, "how": rnd.choice(("kappa", "dmax", "dmax_perm"))})
@@ -86,13 +87,13 @@ def gen_plan(streams, tier):
             ops.append({"k": "warm", "o": o, "how": rnd.choice(("kappa", "dmax", "dmax_perm"))})
         elif x < 0.72:
             m = rnd.choice([m for m in MOVES for _ in range(move_w[m])])
-            op = {"k": "move", "o": o, "m": m, "panel": rnd.random() < 0.3}
+            op = {"k": "move", "o": o, "m": m, "panel": rnd.random() < 0.3, "light": rnd.random() < p_light}
             op.update(gen_frozen(rnd, allow_list=(m == "full_shuffle")))
             ops.append(op)
         elif x < 0.80:
             ops.append({"k": "swapres", "o": o, "i": rnd.random(), "j": rnd.random() if rnd.random() < 0.9 else None})
         elif x < 0.93:
-            op = {"k": "shuffle_api", "o": o, "panel": rnd.random() < 0.3}
+            op = {"k": "shuffle_api", "o": o, "panel": rnd.random() < 0.3, "light": rnd.random() < p_light}
             op.update(gen_frozen(rnd, allow_list=True))
             ops.append(op)
         else:
@@ -330,6 +331,8 @@ def execute(plan, ctx):
                 raise Violation("bookkeeping_mismatch", "bookkeeping:dmax_perm:" + key_site, "%s: child get_deltaMax(True)=%r, fresh %r" % (where, x, y))
 
     def check_parent(parent, before, where, key_site):
+        if before is None:
+            return                      # light op: the parent is examined at the next sweep
         after = snap(parent)
         for k in ("seq", "charge", "sites", "html", "len"):
             if after[k] != before[k]:
@@ -342,13 +345,13 @@ def execute(plan, ctx):
             if not ok:
                 raise Violation("parent_altered", "parent_altered:dmax:" + key_site, "%s changed the parent's cached delta-max from %r to %r" % (where, d0, d1))
 
-    def add(child, parent_i):
+    def add(child, parent_i, known_seq=None):
         for j, o in enumerate(live):
             if o is child:
                 ctx.probe("returns_self")
                 return
         live.append(child)
-        recorded[len(live) - 1] = wrap(child).get_sequence()
+        recorded[len(live) - 1] = known_seq if known_seq is not None else wrap(child).get_sequence()
         depth.append(depth[parent_i] + 1)
         if depth[-1] >= 5:
             ctx.probe("chain_depth_ge_5")
@@ -389,7 +392,7 @@ def execute(plan, ctx):
         i = op["o"] % len(live) if op["o"] >= 0 else len(live) - 1
         parent = live[i]
         k = op["k"]
-        pseq = wrap(parent).get_sequence()
+        pseq = str(parent)
         N = len(pseq)
         cls = seq_class_of(pseq)
         warm = peek_dmax(parent) not in (-1, None)
@@ -404,7 +407,10 @@ def execute(plan, ctx):
             ctx.log.emit("warm", o=i, how=op["how"])
             ctx.sig("warm", cls, op["how"])
             continue
-        before = snap(parent)
+        light = bool(op.get("light"))
+        # "light" ops are not surrounded by look-ups on the objects involved (looking is a call too):
+        # only the strings are compared now; bookkeeping and parent state are examined at the next sweep
+        before = None if light else snap(parent)
         reads0 = clock.reads
         for r_ in made:
             r_._n = 0                 # a Random kept alive across moves (e.g. one per object) starts each op at zero
@@ -493,7 +499,7 @@ def execute(plan, ctx):
         fclass = op.get("fz", "-") if frozen or op.get("fz") else "-"
         ctx.sig(key_site, cls, fclass, warm, plan.get("clock_mode"), mode)
         ctx.log.emit("op", n=n, k=k, site=key_site, parent=pseq, frozen=sorted(set(frozen))[:50], draws=ndraws,
-                     child=(wrap(child).get_sequence() if child is not None else None),
+                     child=(str(child) if child is not None else None),
                      raised=type(raised).__name__ if raised else None, capped=capped)
         ctx.count("moves")
         ctx.count("moves_" + key_site)
@@ -554,6 +560,20 @@ def execute(plan, ctx):
             raise Violation("move_raised", key, msg)
         if child is None:
             raise Violation("move_raised", "move_returned_none:" + key_site, "%s returned None" % where)
+        if light:
+            ctx.probe("light_op_checked_at_next_sweep")
+            cs = str(child)
+            if sorted(cs) != sorted(pseq):
+                raise Violation("not_a_rearrangement", "not_a_rearrangement:" + key_site, "%s of %r returned %r: residues differ" % (where, pseq, cs))
+            moved = [i2 for i2 in frozen if 0 <= i2 < len(pseq) and (i2 >= len(cs) or cs[i2] != pseq[i2])]
+            if moved:
+                key = "frozen_moved:" + key_site
+                if key in ctx.open_keys:
+                    ctx.known[key] = ctx.known.get(key, 0) + 1
+                else:
+                    raise Violation("frozen_moved", key, "%s of %r with frozen=%r returned %r: frozen position(s) %r changed" % (where, pseq, sorted(set(frozen)), cs, moved))
+            add(child, i, cs)
+            continue
         check_child(k, before, child, frozen, where, bool(op.get("panel")), key_site)
         check_parent(parent, before, where, key_site)
         add(child, i)
